@@ -72,15 +72,19 @@ def main():
         meta["ran"].append("git apply patch.diff; python demo.py -> exit %d" % rc1)
         if not skip_suite:
             bfile = os.path.join(SCR, "baseline-%s.json" % head)
+            base = None
             if os.path.exists(bfile):
                 base = json.load(open(bfile))
-            else:
-                wt0 = os.path.join(SCR, "wt-baseline")
+                if "passed" not in base.get("summary", ""):
+                    base = None
+            if base is None:
+                wt0 = os.path.join(SCR, "wt-baseline-%d" % os.getpid())
                 sh("git -C /repo worktree remove --force %s" % wt0)
                 sh("git -C /repo worktree add --detach %s HEAD" % wt0)
                 f0, s0 = suite_failures(wt0)
                 base = {"failures": f0, "summary": s0}
-                json.dump(base, open(bfile, "w"))
+                if "passed" in s0:
+                    json.dump(base, open(bfile, "w"))
                 sh("git -C /repo worktree remove --force %s" % wt0)
             f1, s1 = suite_failures(wt)
             meta["suite_pristine"] = base["summary"]
